@@ -109,17 +109,17 @@ Qed.
 (* ------------------------------------------------------------------------------------ *)
 (** * 3b. range bookkeeping at the end of tracePhase *)
 
-Lemma tail_values TFull dT TMin TMax st :
-  let st' := tail TFull dT TMin TMax st in
+Lemma tail_values TFull dT TMin TMax kMin kMax st :
+  let st' := tail TFull dT TMin TMax kMin kMax st in
   minT st' = lmin TFull + 2 * dT /\ maxT st' = lmax TFull - 2 * dT /\
-  minFlag st' = (minFlag st || Rltb TMin (lmin TFull))%bool /\
-  maxFlag st' = (maxFlag st || Rltb (lmax TFull) TMax)%bool.
-Proof.
-  unfold tail.
-  destruct (Rltb TMin (lmin TFull)); destruct (Rltb (lmax TFull) TMax);
-    destruct st as [a fa b fb]; cbn; repeat split; try ring;
-    destruct fa; destruct fb; reflexivity.
-Qed.
+  minFlag st' = (Rltb TMin (lmin TFull) || kMin)%bool /\
+  maxFlag st' = (Rltb (lmax TFull) TMax || kMax)%bool.
+Proof. unfold tail. destruct st as [a fa b fb]. cbn. repeat split. Qed.
+
+(** the whole range/flag update of one tracePhase call on an object in state [st] *)
+Definition after_trace (TFull : list R) (dT TMinReq TMaxReq : R) (st : ranges) : ranges :=
+  tail TFull dT (clamp_TMin st TMinReq) (clamp_TMax st TMaxReq)
+       (keep_min st TMinReq) (keep_max st TMaxReq) st.
 
 (* ------------------------------------------------------------------------------------ *)
 (** * 4. findCriticalTemperature: the bracket handed to brentq has a sign change *)
@@ -195,20 +195,38 @@ Qed.
 (* ------------------------------------------------------------------------------------ *)
 (** * 3c. the stepping loop of tracePhase (generated [loop_body], [trace_dir]) *)
 
+(** the generated loop body has this shape: re-minimise?; break on spinodal; accept/re-minimise
+    (non-paranoid); break on stall; overwrite-and-continue; append.  A new break reason or a
+    reordering changes this list. *)
+Lemma loop_body_shape_lemma : body_shape = [KUpd; KBrk; KUpd; KBrk; KCont; KUpd].
+Proof. reflexivity. Qed.
+
 Section Loop.
 Context {Fld Hess : Type}.
 Variable X : ext Fld Hess.
 Variables (T0 rTol : R) (spinodal paranoid : bool).
+Notation S1 := (seg_1 X T0 rTol spinodal paranoid).
+Notation B2 := (seg_2 X T0 rTol spinodal paranoid).
+Notation S3 := (seg_3 X T0 rTol spinodal paranoid).
+Notation B4 := (seg_4 X T0 rTol spinodal paranoid).
+Notation C5 := (seg_5 X T0 rTol spinodal paranoid).
+Notation D5 := (seg_5_do X T0 rTol spinodal paranoid).
+Notation S6 := (seg_6 X T0 rTol spinodal paranoid).
 
 Definition entries (st : lstate Fld) := combine (l_T st) (combine (l_F st) (l_P st)).
 Definition aligned (st : lstate Fld) :=
   length (l_T st) = length (l_F st) /\ length (l_F st) = length (l_P st).
+Definition cur_t (s : lstate Fld) := ode_t (l_ode s).
+Definition cur_y (s : lstate Fld) := ode_y (l_ode s).
 Definition tested (t : R) (y : Fld) : Prop := 0 < spinodalEvent X spinodal t y.
+(** the acceptance error of the non-paranoid branch: |grad V| / T0^3 *)
+Definition gerr (t : R) (y : Fld) : R := norm X (derivField X y t) / T0 ^ 3.
 Definition good_entry (e : R * (Fld * option R)) : Prop :=
   let '(t, (y, p)) := e in
   exists v, p = Some v /\
-    ((tested t y /\ ((exists y0 tol, findLocalMinimum X y0 t tol = (y, v)) \/ v = evaluate X y t))
-     \/ (paranoid = false /\ exists y0, tested t y0 /\
+    ((paranoid = true /\ tested t y /\ exists y0, findLocalMinimum X y0 t rTol = (y, v))
+     \/ (paranoid = false /\ tested t y /\ v = evaluate X y t /\ gerr t y <= rTol)
+     \/ (paranoid = false /\ exists y0, tested t y0 /\ rTol < gerr t y0 /\
            findLocalMinimum X y0 t (extraTol_of rTol) = (y, v))).
 
 Lemma combine_snoc {A B} (l1 : list A) (l2 : list B) a b : length l1 = length l2 ->
@@ -250,60 +268,135 @@ Qed.
 Lemma length_pos_ne {A} (l : list A) : (0 <? length l)%nat = true -> l <> [].
 Proof. destruct l; cbn; [discriminate|intros _; discriminate]. Qed.
 
+
+Definition same_table (s s' : lstate Fld) : Prop :=
+  l_T s' = l_T s /\ l_F s' = l_F s /\ l_P s' = l_P s /\ cur_t s' = cur_t s /\
+  ode_h (l_ode s') = ode_h (l_ode s).
+
 Ltac red_st :=
   cbv beta iota zeta delta [negb fst snd l_ode l_pot l_T l_F l_P set_l_ode set_l_pot set_l_T
-                            set_l_F set_l_P ode_t ode_y ode_h ode_running set_y].
-Ltac body_cases :=
-  unfold loop_body;
-  match goal with |- context [rk_step X ?o] => destruct (rk_step X o) as [o1|] eqn:Hstep end;
-  [destruct paranoid eqn:Hp; red_st;
-   repeat match goal with
-     | |- context [findLocalMinimum X ?y ?t ?tol] =>
-         destruct (findLocalMinimum X y t tol) as [ph pv] eqn:?; red_st
-     end;
-   repeat match goal with
-     | |- context [if ?c then _ else _] => destruct c eqn:?; red_st
-     end
-  | red_st].
+                            set_l_F set_l_P ode_t ode_y ode_h ode_running set_y cur_t cur_y].
+
+(** *** what each straight-line segment does *)
+Lemma seg1_spec s :
+  same_table s (S1 s) /\
+  ((paranoid = true /\ exists v, l_pot (S1 s) = Some v /\
+       findLocalMinimum X (cur_y s) (cur_t s) rTol = (cur_y (S1 s), v))
+   \/ (paranoid = false /\ S1 s = s)).
+Proof.
+  unfold seg_1, same_table. destruct s as [[t y h run] pot lT lF lP]. destruct paranoid; red_st.
+  - destruct (findLocalMinimum X y t rTol) as [ph pv] eqn:E. red_st.
+    repeat split; try reflexivity. left. split; [reflexivity|]. exists pv. split; reflexivity.
+  - repeat split; try reflexivity. right. split; reflexivity.
+Qed.
+
+Lemma seg3_spec s :
+  same_table s (S3 s) /\
+  ((paranoid = true /\ S3 s = s)
+   \/ (paranoid = false /\
+       ((rTol < gerr (cur_t s) (cur_y s) /\ exists v, l_pot (S3 s) = Some v /\
+            findLocalMinimum X (cur_y s) (cur_t s) (extraTol_of rTol) = (cur_y (S3 s), v))
+        \/ (gerr (cur_t s) (cur_y s) <= rTol /\ cur_y (S3 s) = cur_y s /\
+            l_pot (S3 s) = Some (evaluate X (cur_y s) (cur_t s)))))).
+Proof.
+  unfold seg_3, same_table, gerr. destruct s as [[t y h run] pot lT lF lP]. destruct paranoid; red_st.
+  - repeat split; try reflexivity. left. split; reflexivity.
+  - destruct (Rltb rTol (norm X (derivField X y t) / T0 ^ 3)) eqn:Hc; red_st.
+    + destruct (findLocalMinimum X y t (extraTol_of rTol)) as [ph pv] eqn:E. red_st.
+      repeat split; try reflexivity. right. split; [reflexivity|]. left.
+      split; [apply Rltb_true; exact Hc|]. exists pv. split; reflexivity.
+    + repeat split; try reflexivity. right. split; [reflexivity|]. right.
+      split; [apply Rltb_false; exact Hc|]. split; reflexivity.
+Qed.
+
+Lemma seg2_false s : B2 s = false -> tested (cur_t s) (cur_y s).
+Proof. unfold seg_2, tested. intros H. apply Rleb_false in H. exact H. Qed.
+Lemma seg2_true s : B2 s = true -> spinodalEvent X spinodal (cur_t s) (cur_y s) <= 0.
+Proof. unfold seg_2. intros H. apply Rleb_true in H. exact H. Qed.
+Lemma seg4_true s : B4 s = true ->
+  ode_h (l_ode s) < 1 / 10000000000000000 * T0 \/ (l_T s <> [] /\ cur_t s = last (l_T s) 0).
+Proof.
+  unfold seg_4. intros H. apply orb_true_iff in H. destruct H as [H|H].
+  - left. apply Rltb_true in H. exact H.
+  - right. apply andb_prop in H. destruct H as [H1 H2]. split; [apply length_pos_ne; exact H1|].
+    apply Reqb_true in H2. exact H2.
+Qed.
+Lemma seg5_true s : C5 s = true -> l_T s <> [].
+Proof. unfold seg_5. intros H. apply andb_prop in H. destruct H as [H _]. apply length_pos_ne; exact H. Qed.
+Lemma seg5do_spec s :
+  l_T (D5 s) = removelast (l_T s) ++ [cur_t s] /\ l_F (D5 s) = removelast (l_F s) ++ [cur_y s] /\
+  l_P (D5 s) = removelast (l_P s) ++ [l_pot s] /\ l_ode (D5 s) = l_ode s.
+Proof. unfold seg_5_do. destruct s. red_st. repeat split. Qed.
+Lemma seg6_spec s :
+  l_T (S6 s) = l_T s ++ [cur_t s] /\ l_F (S6 s) = l_F s ++ [cur_y s] /\
+  l_P (S6 s) = l_P s ++ [l_pot s] /\ l_ode (S6 s) = l_ode s.
+Proof. unfold seg_6. destruct s. red_st. repeat split. Qed.
+
+(** the point about to be tabulated after segments 1-3 is a good entry *)
+Lemma accepted_point_good s0 :
+  B2 (S1 s0) = false ->
+  let s3 := S3 (S1 s0) in good_entry (cur_t s3, (cur_y s3, l_pot s3)).
+Proof.
+  intros H2. cbv zeta. set (s1 := S1 s0) in *.
+  destruct (seg1_spec s0) as [[_ [_ [_ [Et1 _]]]] P1]. fold s1 in Et1, P1.
+  destruct (seg3_spec s1) as [[_ [_ [_ [Et3 _]]]] P3].
+  apply seg2_false in H2. unfold good_entry.
+  destruct P3 as [[Hp E3]|[Hp [[Hg [v [Hv Hf]]]|[Hg [Ey Hv]]]]].
+  - rewrite E3. destruct P1 as [[_ [v [Hv Hf]]]|[Hp' _]]; [|congruence].
+    exists v. split; [exact Hv|]. left. split; [exact Hp|]. split; [exact H2|].
+    exists (cur_y s0). rewrite Et1. exact Hf.
+  - exists v. split; [exact Hv|]. right. right. split; [exact Hp|].
+    exists (cur_y s1). rewrite Et3. split; [exact H2|]. split; [exact Hg|exact Hf].
+  - exists (evaluate X (cur_y s1) (cur_t s1)). split; [exact Hv|]. right. left.
+    split; [exact Hp|]. rewrite Et3, Ey. split; [exact H2|]. split; [reflexivity|exact Hg].
+Qed.
+
+Lemma tables_s3 s0 : let s3 := S3 (S1 s0) in
+  l_T s3 = l_T s0 /\ l_F s3 = l_F s0 /\ l_P s3 = l_P s0 /\ cur_t s3 = cur_t s0.
+Proof.
+  cbv zeta. destruct (seg1_spec s0) as [[A1 [A2 [A3 [A4 _]]]] _].
+  destruct (seg3_spec (S1 s0)) as [[B1 [B2' [B3 [B4' _]]]] _].
+  repeat split; congruence.
+Qed.
+
+(** the four ways one execution of the body can end *)
+Lemma body_cases_lemma st r : loop_body X T0 rTol spinodal paranoid st = r ->
+  (rk_step X (l_ode st) = None /\ r = (st, true)) \/
+  exists o1, rk_step X (l_ode st) = Some o1 /\
+    let s0 := set_l_ode st o1 in let s1 := S1 s0 in let s3 := S3 s1 in
+    (B2 s1 = true /\ r = (s1, true)) \/
+    (B2 s1 = false /\
+      ((B4 s3 = true /\ r = (s3, true)) \/
+       (B4 s3 = false /\ C5 s3 = true /\ r = (D5 s3, false)) \/
+       (B4 s3 = false /\ C5 s3 = false /\ r = (S6 s3, false)))).
+Proof.
+  unfold loop_body. intros <-. destruct (rk_step X (l_ode st)) as [o1|] eqn:Hs; [|left; split; reflexivity].
+  right. exists o1. split; [reflexivity|]. cbv zeta.
+  destruct (B2 (S1 (set_l_ode st o1))) eqn:H2; [left; split; reflexivity|right; split; [reflexivity|]].
+  destruct (B4 (S3 (S1 (set_l_ode st o1)))) eqn:H4; [left; split; reflexivity|right].
+  destruct (C5 (S3 (S1 (set_l_ode st o1)))) eqn:H5; [left|right]; repeat split; reflexivity.
+Qed.
+
+(** exhaustive list of the reasons for which the body ends the sweep *)
+Lemma break_reasons_lemma st : snd (loop_body X T0 rTol spinodal paranoid st) = true ->
+  rk_step X (l_ode st) = None \/
+  exists o1, rk_step X (l_ode st) = Some o1 /\
+    let s1 := S1 (set_l_ode st o1) in
+    spinodalEvent X spinodal (cur_t s1) (cur_y s1) <= 0 \/
+    let s3 := S3 s1 in
+    ode_h (l_ode s3) < 1 / 10000000000000000 * T0 \/ (l_T s3 <> [] /\ cur_t s3 = last (l_T s3) 0).
+Proof.
+  intros Hb. destruct (body_cases_lemma st _ eq_refl) as [[Hn _]|[o1 [Hs C]]]; [left; exact Hn|].
+  right. exists o1. split; [exact Hs|]. cbv zeta in *.
+  destruct C as [[H2 _]|[_ [[H4 _]|[[_ [_ E]]|[_ [_ E]]]]]].
+  - left. apply seg2_true. exact H2.
+  - right. apply seg4_true. exact H4.
+  - rewrite E in Hb. discriminate.
+  - rewrite E in Hb. discriminate.
+Qed.
 
 (** one execution of the loop body: the table is unchanged, or one good entry is appended, or
     the last entry is overwritten by a good entry *)
-Lemma body_entries_r st r : loop_body X T0 rTol spinodal paranoid st = r -> aligned st ->
-  aligned (fst r) /\
-  (entries (fst r) = entries st \/
-   exists e, good_entry e /\
-     (entries (fst r) = entries st ++ [e] \/
-      (l_T st <> [] /\ entries (fst r) = removelast (entries st) ++ [e]))).
-Proof.
-  intros Er [A1 A2]. revert Er. destruct st as [o pot lT lF lP]. unfold aligned, entries in *.
-  cbn [l_ode l_pot l_T l_F l_P] in *.
-  body_cases.
-  all: intros <-; red_st.
-  all: try (split; [split; assumption|left; reflexivity]).
-  all: try match goal with H : (_ && _)%bool = true |- _ =>
-         apply andb_prop in H; destruct H as [Hne _]; apply length_pos_ne in Hne end.
-  all: try (assert (NF : lF <> []) by (intros E; subst lF; destruct lT; cbn in *; [congruence|lia]);
-            assert (NP : lP <> []) by (intros E; subst lP; destruct lF; cbn in *; [congruence|lia])).
-  all: rewrite ?app_length; cbn [length].
-  all: try (assert (R1 := removelast_length lT Hne); assert (R2 := removelast_length lF NF);
-            assert (R3 := removelast_length lP NP)).
-  all: split; [split; lia|right].
-  all: eexists; split; [|first
-    [ right; split; [assumption|];
-      rewrite <- (combine_removelast lT (combine lF lP)) by (rewrite combine_length; lia);
-      rewrite <- (combine_removelast lF lP) by lia;
-      rewrite (combine_snoc (removelast lF) (removelast lP)) by lia;
-      rewrite (combine_snoc (removelast lT)) by (rewrite combine_length; lia); reflexivity
-    | left; rewrite (combine_snoc lF lP _ _ A2), (combine_snoc lT) by (rewrite combine_length; lia);
-      reflexivity ]].
-  all: unfold good_entry; eexists; split; [reflexivity|].
-  all: cbn [l_ode l_pot l_T l_F l_P set_l_ode ode_t ode_y] in *.
-  all: unfold tested.
-  all: repeat match goal with H : Rleb _ 0 = false |- _ => apply Rleb_false in H end.
-  all: first [ left; split; [assumption|first [right; reflexivity|left; eexists; eexists; eassumption]]
-             | right; split; [first [reflexivity|assumption]|eexists; split; eassumption] ].
-Qed.
-
 Lemma body_entries st : aligned st ->
   let r := loop_body X T0 rTol spinodal paranoid st in
   aligned (fst r) /\
@@ -311,7 +404,36 @@ Lemma body_entries st : aligned st ->
    exists e, good_entry e /\
      (entries (fst r) = entries st ++ [e] \/
       (l_T st <> [] /\ entries (fst r) = removelast (entries st) ++ [e]))).
-Proof. intros A. exact (body_entries_r st _ eq_refl A). Qed.
+Proof.
+  intros [A1 A2]. cbv zeta.
+  destruct (body_cases_lemma st _ eq_refl) as [[_ E]|[o1 [_ C]]].
+  { rewrite E. split; [split; assumption|left; reflexivity]. }
+  cbv zeta in C. set (s0 := set_l_ode st o1) in *.
+  assert (L0 : l_T s0 = l_T st /\ l_F s0 = l_F st /\ l_P s0 = l_P st) by (destruct st; repeat split).
+  destruct L0 as [L0T [L0F L0P]].
+  destruct (seg1_spec s0) as [[T1 [F1 [P1 _]]] _].
+  destruct (tables_s3 s0) as [T3 [F3 [P3 _]]].
+  destruct C as [[_ E]|[H2 [[_ E]|[[_ [H5 E]]|[_ [_ E]]]]]]; rewrite E; cbn [fst snd]; unfold aligned, entries.
+  - rewrite T1, F1, P1, L0T, L0F, L0P. split; [split; assumption|left; reflexivity].
+  - rewrite T3, F3, P3, L0T, L0F, L0P. split; [split; assumption|left; reflexivity].
+  - destruct (seg5do_spec (S3 (S1 s0))) as [DT [DF [DP _]]]. rewrite DT, DF, DP, T3, F3, P3, L0T, L0F, L0P.
+    apply seg5_true in H5. rewrite T3, L0T in H5.
+    assert (NF : l_F st <> []) by (intros E'; rewrite E' in A1; destruct (l_T st); cbn in *; [congruence|lia]).
+    assert (NP : l_P st <> []) by (intros E'; rewrite E' in A2; destruct (l_F st); cbn in *; [congruence|lia]).
+    assert (R1 := removelast_length (l_T st) H5). assert (R2 := removelast_length (l_F st) NF).
+    assert (R3 := removelast_length (l_P st) NP).
+    split; [rewrite !app_length; cbn [length]; split; lia|].
+    right. eexists. split; [exact (accepted_point_good s0 H2)|]. right. split; [exact H5|].
+    rewrite <- (combine_removelast (l_T st) (combine (l_F st) (l_P st))) by (rewrite combine_length; lia).
+    rewrite <- (combine_removelast (l_F st) (l_P st)) by lia.
+    rewrite (combine_snoc (removelast (l_F st)) (removelast (l_P st))) by lia.
+    rewrite (combine_snoc (removelast (l_T st))) by (rewrite combine_length; lia). reflexivity.
+  - destruct (seg6_spec (S3 (S1 s0))) as [DT [DF [DP _]]]. rewrite DT, DF, DP, T3, F3, P3, L0T, L0F, L0P.
+    split; [rewrite !app_length; cbn [length]; split; lia|].
+    right. eexists. split; [exact (accepted_point_good s0 H2)|]. left.
+    rewrite (combine_snoc (l_F st) (l_P st) _ _ A2), (combine_snoc (l_T st)) by (rewrite combine_length; lia).
+    reflexivity.
+Qed.
 
 Theorem sweep_entries fuel st0 : aligned st0 ->
   let st := trace_dir X fuel T0 rTol spinodal paranoid st0 in
@@ -356,33 +478,31 @@ Lemma decr_removelast l : decr l -> decr (removelast l).
 Proof. unfold decr. rewrite rev_removelast. apply incr_tl. Qed.
 
 (** what one execution of the body does to the temperature list and the integrator time *)
-Lemma body_T_r st r0 : loop_body X T0 rTol spinodal paranoid st = r0 ->
-  let r := fst r0 in
-  r = st \/
-  exists o1, rk_step X (l_ode st) = Some o1 /\ ode_t (l_ode r) = ode_t o1 /\
-    (l_T r = l_T st \/ l_T r = l_T st ++ [ode_t o1] \/
-     (l_T st <> [] /\ l_T r = removelast (l_T st) ++ [ode_t o1])).
-Proof.
-  destruct st as [o pot lT lF lP].
-  body_cases.
-  all: intros <-; cbv zeta; red_st.
-  all: cbn [l_ode l_pot l_T l_F l_P set_l_ode ode_t ode_y] in *.
-  all: try (left; reflexivity).
-  all: right; exists o1; split; [first [exact Hstep|reflexivity]|split; [reflexivity|]].
-  all: try (left; reflexivity).
-  all: try (right; left; reflexivity).
-  all: right; right; split; [|reflexivity].
-  all: match goal with H : (_ && _)%bool = true |- _ =>
-         apply andb_prop in H; destruct H as [Hne _]; apply length_pos_ne in Hne; exact Hne end.
-Qed.
-
 Lemma body_T st :
   let r := fst (loop_body X T0 rTol spinodal paranoid st) in
   r = st \/
   exists o1, rk_step X (l_ode st) = Some o1 /\ ode_t (l_ode r) = ode_t o1 /\
     (l_T r = l_T st \/ l_T r = l_T st ++ [ode_t o1] \/
      (l_T st <> [] /\ l_T r = removelast (l_T st) ++ [ode_t o1])).
-Proof. exact (body_T_r st _ eq_refl). Qed.
+Proof.
+  cbv zeta. destruct (body_cases_lemma st _ eq_refl) as [[_ E]|[o1 [Hs C]]].
+  { left. rewrite E. reflexivity. }
+  right. exists o1. split; [exact Hs|]. cbv zeta in C. set (s0 := set_l_ode st o1) in *.
+  assert (L0 : l_T s0 = l_T st /\ cur_t s0 = ode_t o1) by (destruct st; split; reflexivity).
+  destruct L0 as [L0T L0t].
+  destruct (seg1_spec s0) as [[T1 [_ [_ [t1 _]]]] _].
+  destruct (tables_s3 s0) as [T3 [_ [_ t3]]].
+  destruct C as [[_ E]|[_ [[_ E]|[[_ [H5 E]]|[_ [_ E]]]]]]; rewrite E; cbn [fst].
+  - split; [change (cur_t (S1 s0) = ode_t o1); congruence|left; congruence].
+  - split; [change (cur_t (S3 (S1 s0)) = ode_t o1); congruence|left; congruence].
+  - destruct (seg5do_spec (S3 (S1 s0))) as [DT [_ [_ DO]]]. rewrite DO.
+    split; [change (cur_t (S3 (S1 s0)) = ode_t o1); congruence|].
+    right. right. apply seg5_true in H5. rewrite T3, L0T in H5. split; [exact H5|].
+    rewrite DT, T3, L0T, t3, L0t. reflexivity.
+  - destruct (seg6_spec (S3 (S1 s0))) as [DT [_ [_ DO]]]. rewrite DO.
+    split; [change (cur_t (S3 (S1 s0)) = ode_t o1); congruence|].
+    right. left. rewrite DT, T3, L0T, t3, L0t. reflexivity.
+Qed.
 
 Lemma body_up st : (forall o o', rk_step X o = Some o' -> ode_t o < ode_t o') ->
   up_inv st -> up_inv (fst (loop_body X T0 rTol spinodal paranoid st)).
@@ -484,6 +604,102 @@ Proof.
   repeat split; assumption.
 Qed.
 
+(** why a sweep ends: out of fuel (model artefact), RK45 no longer running, or the body broke
+    for one of the listed reasons *)
+Theorem sweep_end_reasons_lemma {Fld Hess : Type} (X : ext Fld Hess) (T0 rTol : R)
+    (spinodal paranoid : bool) (fuel : nat) (st0 : lstate Fld) :
+  let '(st', why, s0) := run_while_r fuel (fun st => ode_running (l_ode st))
+                           (loop_body X T0 rTol spinodal paranoid) st0 in
+  st' = trace_dir X fuel T0 rTol spinodal paranoid st0 /\
+  match why with
+  | EFuel => True
+  | ECond => ode_running (l_ode st') = false
+  | EBreak =>
+      rk_step X (l_ode s0) = None \/
+      exists o1, rk_step X (l_ode s0) = Some o1 /\
+        let s1 := seg_1 X T0 rTol spinodal paranoid (set_l_ode s0 o1) in
+        spinodalEvent X spinodal (cur_t s1) (cur_y s1) <= 0 \/
+        let s3 := seg_3 X T0 rTol spinodal paranoid s1 in
+        ode_h (l_ode s3) < 1 / 10000000000000000 * T0 \/
+        (l_T s3 <> [] /\ cur_t s3 = last (l_T s3) 0)
+  end.
+Proof.
+  pose proof (run_while_r_spec (fun st => ode_running (l_ode st))
+                (loop_body X T0 rTol spinodal paranoid) fuel st0) as H.
+  destruct (run_while_r fuel _ _ st0) as [[st' why] s0]. destruct H as [E R].
+  split; [exact E|]. destruct why; [exact I|exact R|].
+  destruct R as [_ Hb]. apply break_reasons_lemma. rewrite Hb. reflexivity.
+Qed.
+
+(** the first table entry *)
+Lemma lmax_neg l : l <> [] -> lmax l < 0 -> Forall (fun x => x < 0) l.
+Proof.
+  intros Hne H. destruct (lmax_spec l Hne) as [_ A]. eapply Forall_impl; [|exact A].
+  cbn beta. intros; lra.
+Qed.
+Lemma lmin_le_lmax l : l <> [] -> lmin l <= lmax l.
+Proof.
+  intros Hne. destruct (lmin_spec l Hne) as [I1 _]. destruct (lmax_spec l Hne) as [_ A].
+  rewrite Forall_forall in A. apply A. exact I1.
+Qed.
+
+Theorem first_entry_lemma {Fld Hess : Type} (X : ext Fld Hess) (guess : Fld) (T0 rTol : R)
+    (o : ode Fld) :
+  let '(phase0, potential0) := first_point X guess T0 rTol in
+  let '(lT, lF, lP) := first_sweep_lists T0 phase0 potential0 in
+  let st0 := mk_lstate o None lT lF lP in
+  aligned st0 /\ entries st0 = [(T0, (phase0, Some potential0))] /\
+  findLocalMinimum X guess T0 (extraTol_of rTol) = (phase0, potential0) /\
+  (first_eigs X phase0 T0 <> [] -> first_assert X phase0 T0 = true ->
+     Forall (fun ev => 0 < ev) (first_eigs X phase0 T0) \/
+     Forall (fun ev => ev < 0) (first_eigs X phase0 T0)).
+Proof.
+  unfold first_point. destruct (findLocalMinimum X guess T0 (extraTol_of rTol)) as [p v] eqn:E.
+  unfold first_sweep_lists. cbv zeta. split; [split; reflexivity|]. split; [reflexivity|].
+  split; [reflexivity|]. unfold first_assert, first_eigs. intros Hne H. apply Rltb_true in H.
+  set (l := eigvalsh X (deriv2Field2 X p T0)) in *.
+  assert (Hle := lmin_le_lmax l Hne).
+  destruct (Rlt_dec 0 (lmin l)) as [Hp|Hn].
+  - left. apply lmin_pos_iff; assumption.
+  - right. apply lmax_neg; [exact Hne|]. nra.
+Qed.
+
+(** the assert before the loops accepts a local maximum (all eigenvalues negative) although
+    such a point fails the spinodal test of the loop *)
+Theorem first_assert_accepts_maximum_lemma {Fld Hess : Type} (X : ext Fld Hess) p T0 :
+  eigvalsh X (deriv2Field2 X p T0) = [-1] ->
+  first_assert X p T0 = true /\ spinodalEvent X true T0 p <= 0.
+Proof.
+  intros H. unfold first_assert, spinodalEvent. rewrite H. cbn [negb lmin lmax]. split.
+  - apply Rltb_true. lra.
+  - lra.
+Qed.
+
+(** the three joined columns stay aligned row by row *)
+Lemma combine_app {A B} (a c : list A) (b d : list B) : length a = length b ->
+  combine (a ++ c) (b ++ d) = combine a b ++ combine c d.
+Proof.
+  revert b. induction a as [|x r IH]; intros [|y r2] H; cbn in *; try discriminate; [reflexivity|].
+  f_equal. apply IH. lia.
+Qed.
+Lemma combine_rev {A B} (a : list A) (b : list B) : length a = length b ->
+  combine (rev a) (rev b) = rev (combine a b).
+Proof.
+  revert b. induction a as [|x r IH]; intros [|y r2] H; cbn in *; try discriminate; [reflexivity|].
+  rewrite combine_snoc by (rewrite !rev_length; lia). rewrite IH by lia. reflexivity.
+Qed.
+Theorem joined_entries_lemma {Fld : Type} (dT uT : list R) (dF uF : list Fld)
+    (dP uP : list (option R)) :
+  length dT = length dF -> length dF = length dP ->
+  combine (join_T dT uT) (combine (join_F dF uF) (join_P dP uP)) =
+  rev (combine dT (combine dF dP)) ++ combine uT (combine uF uP).
+Proof.
+  intros H1 H2. unfold join_T, join_F, join_P.
+  rewrite (combine_app (rev dF) uF (rev dP) uP) by (rewrite !rev_length; exact H2).
+  rewrite combine_app by (rewrite combine_length, !rev_length; lia).
+  rewrite (combine_rev dF dP H2), combine_rev by (rewrite combine_length; lia). reflexivity.
+Qed.
+
 (* ==================================================================================== *)
 (** * The theorems *)
 
@@ -556,33 +772,43 @@ Print Assumptions diagonal_test_refuted.
 
 Theorem range_is_table_minus_margin :
   forall TFull dT TMinReq TMaxReq st,
-  let st' := tail TFull dT (clamp_TMin st TMinReq) (clamp_TMax st TMaxReq) st in
+  let st' := after_trace TFull dT TMinReq TMaxReq st in
   minT st' = lmin TFull + 2 * dT /\ maxT st' = lmax TFull - 2 * dT.
 Proof.
-  intros. destruct (tail_values TFull dT (clamp_TMin st TMinReq) (clamp_TMax st TMaxReq) st)
-    as [A [B _]]. split; assumption.
+  intros. destruct (tail_values TFull dT (clamp_TMin st TMinReq) (clamp_TMax st TMaxReq)
+                      (keep_min st TMinReq) (keep_max st TMaxReq) st) as [A [B _]].
+  split; assumption.
 Qed.
 Print Assumptions range_is_table_minus_margin.
 
-(** on an object whose ends are not yet flagged: the lower end is flagged exactly when the
-    table stops above the requested (clamped) TMin; same for the upper end.  A flag that is
-    already set is never cleared. *)
+(** an end is flagged after a call exactly when the table stops short of the (clamped) request,
+    or when it had been flagged before and this call was asked to go at least as far as the
+    previous end; in particular a narrower re-trace that reaches its request clears the flag *)
 Theorem flag_iff_short :
   forall TFull dT TMinReq TMaxReq st,
-  let st' := tail TFull dT (clamp_TMin st TMinReq) (clamp_TMax st TMaxReq) st in
+  let st' := after_trace TFull dT TMinReq TMaxReq st in
+  (minFlag st' = true <-> Rmax (minT st) TMinReq < lmin TFull \/
+                          (minFlag st = true /\ TMinReq <= minT st)) /\
+  (maxFlag st' = true <-> lmax TFull < Rmin (maxT st) TMaxReq \/
+                          (maxFlag st = true /\ maxT st <= TMaxReq)) /\
   (minFlag st = false -> (minFlag st' = true <-> Rmax (minT st) TMinReq < lmin TFull)) /\
-  (maxFlag st = false -> (maxFlag st' = true <-> lmax TFull < Rmin (maxT st) TMaxReq)) /\
-  (minFlag st = true -> minFlag st' = true) /\ (maxFlag st = true -> maxFlag st' = true).
+  (maxFlag st = false -> (maxFlag st' = true <-> lmax TFull < Rmin (maxT st) TMaxReq)).
 Proof.
-  intros. destruct (tail_values TFull dT (clamp_TMin st TMinReq) (clamp_TMax st TMaxReq) st)
-    as [_ [_ [A B]]]. subst st'. unfold clamp_TMin, clamp_TMax in *.
-  split; [|split; [|split]].
-  - intros H. rewrite A, H. cbn [orb]. apply Rltb_true.
-  - intros H. rewrite B, H. cbn [orb]. apply Rltb_true.
-  - intros H. rewrite A, H. reflexivity.
-  - intros H. rewrite B, H. reflexivity.
+  intros. destruct (tail_values TFull dT (clamp_TMin st TMinReq) (clamp_TMax st TMaxReq)
+                      (keep_min st TMinReq) (keep_max st TMaxReq) st) as [_ [_ [A B]]].
+  subst st'. unfold after_trace. rewrite A, B.
+  unfold clamp_TMin, clamp_TMax, keep_min, keep_max.
+  assert (Emin : forall f x y u v, (Rltb x y || (f && Rleb u v))%bool = true <->
+                                    x < y \/ (f = true /\ u <= v)).
+  { intros f x y u v. rewrite orb_true_iff, andb_true_iff, Rltb_true, Rleb_true. reflexivity. }
+  split; [apply Emin|]. split; [apply Emin|]. split; intros Hf; rewrite Hf; cbn [andb];
+    rewrite orb_false_r; apply Rltb_true.
 Qed.
 Print Assumptions flag_iff_short.
+
+Theorem table_is_frozen_after_trace : table_frozen_after_trace = true.
+Proof. reflexivity. Qed.
+Print Assumptions table_is_frozen_after_trace.
 
 Theorem tc_bracket_has_sign_change :
   forall fuel fd TStep TMin TMax, 0 < TStep ->
@@ -637,7 +863,7 @@ Theorem tabulated_points_tested_or_reminimised_partial :
   aligned st0 ->
   let st := trace_dir X fuel T0 rTol spinodal paranoid st0 in
   aligned st /\
-  Forall (fun e => In e (entries st0) \/ good_entry X rTol spinodal paranoid e) (entries st).
+  Forall (fun e => In e (entries st0) \/ good_entry X T0 rTol spinodal paranoid e) (entries st).
 Proof. intros Fld Hess X T0 rTol spinodal paranoid fuel st0. apply sweep_entries. Qed.
 Print Assumptions tabulated_points_tested_or_reminimised_partial.
 
@@ -649,15 +875,14 @@ Theorem tabulated_points_pass_spinodal_test :
   Forall (fun e => In e (entries st0) \/
             let '(t, (y, p)) := e in
               0 < spinodalEvent X spinodal t y /\
-              exists v, p = Some v /\
-                ((exists y0 tol, findLocalMinimum X y0 t tol = (y, v)) \/ v = evaluate X y t))
+              exists v y0, p = Some v /\ findLocalMinimum X y0 t rTol = (y, v))
          (entries st).
 Proof.
   intros Fld Hess X T0 rTol spinodal fuel st0 A.
   destruct (sweep_entries X T0 rTol spinodal true fuel st0 A) as [_ G].
   eapply Forall_impl; [|exact G].
-  intros [t [y p]] [Hin|[v [Hp [[Ht Hv]|[Hf _]]]]]; [left; exact Hin| |discriminate].
-  right. split; [exact Ht|]. exists v. split; assumption.
+  intros [t [y p]] [Hin|[v [Hp [[_ [Ht [y0 Hf]]]|[[Hf _]|[Hf _]]]]]]; [left; exact Hin| |discriminate|discriminate].
+  right. split; [exact Ht|]. exists v, y0. split; assumption.
 Qed.
 Print Assumptions tabulated_points_pass_spinodal_test.
 
@@ -697,3 +922,63 @@ Theorem positive_definiteness_is_basis_independent :
           (si ^ 2 * a + 2 * co * si * b + co ^ 2 * c) <-> posdef2 a b c.
 Proof. intros a b c co si H. exact (posdef2_rotation a b c co si H). Qed.
 Print Assumptions positive_definiteness_is_basis_independent.
+
+(** structure of the generated loop body; the exhaustive list of reasons for which a sweep
+    ends (a new `break` in the source changes [body_shape] and falsifies [break_reasons]) *)
+Theorem loop_body_shape : body_shape = [KUpd; KBrk; KUpd; KBrk; KCont; KUpd].
+Proof. exact loop_body_shape_lemma. Qed.
+Print Assumptions loop_body_shape.
+
+Theorem sweep_end_reasons :
+  forall (Fld Hess : Type) (X : ext Fld Hess) (T0 rTol : R) (spinodal paranoid : bool)
+         (fuel : nat) (st0 : lstate Fld),
+  let '(st', why, s0) := run_while_r fuel (fun st => ode_running (l_ode st))
+                           (loop_body X T0 rTol spinodal paranoid) st0 in
+  st' = trace_dir X fuel T0 rTol spinodal paranoid st0 /\
+  match why with
+  | EFuel => True
+  | ECond => ode_running (l_ode st') = false
+  | EBreak =>
+      rk_step X (l_ode s0) = None \/
+      exists o1, rk_step X (l_ode s0) = Some o1 /\
+        let s1 := seg_1 X T0 rTol spinodal paranoid (set_l_ode s0 o1) in
+        spinodalEvent X spinodal (cur_t s1) (cur_y s1) <= 0 \/
+        let s3 := seg_3 X T0 rTol spinodal paranoid s1 in
+        ode_h (l_ode s3) < 1 / 10000000000000000 * T0 \/
+        (l_T s3 <> [] /\ cur_t s3 = last (l_T s3) 0)
+  end.
+Proof. intros Fld Hess. exact (@sweep_end_reasons_lemma Fld Hess). Qed.
+Print Assumptions sweep_end_reasons.
+
+(** entry 0 of the table is findLocalMinimum's output at T0 from the user's guess with
+    tolerance extraTol; the assert before the loops only guarantees that all Hessian
+    eigenvalues there have the same sign ([first_assert_accepts_maximum]) *)
+Theorem first_entry_partial :
+  forall (Fld Hess : Type) (X : ext Fld Hess) (guess : Fld) (T0 rTol : R) (o : ode Fld),
+  let '(phase0, potential0) := first_point X guess T0 rTol in
+  let '(lT, lF, lP) := first_sweep_lists T0 phase0 potential0 in
+  let st0 := mk_lstate o None lT lF lP in
+  aligned st0 /\ entries st0 = [(T0, (phase0, Some potential0))] /\
+  findLocalMinimum X guess T0 (extraTol_of rTol) = (phase0, potential0) /\
+  (first_eigs X phase0 T0 <> [] -> first_assert X phase0 T0 = true ->
+     Forall (fun ev => 0 < ev) (first_eigs X phase0 T0) \/
+     Forall (fun ev => ev < 0) (first_eigs X phase0 T0)).
+Proof. intros Fld Hess. exact (@first_entry_lemma Fld Hess). Qed.
+Print Assumptions first_entry_partial.
+
+Theorem first_assert_accepts_maximum :
+  forall (Fld Hess : Type) (X : ext Fld Hess) p T0,
+  eigvalsh X (deriv2Field2 X p T0) = [-1] ->
+  first_assert X p T0 = true /\ spinodalEvent X true T0 p <= 0.
+Proof. intros Fld Hess. exact (@first_assert_accepts_maximum_lemma Fld Hess). Qed.
+Print Assumptions first_assert_accepts_maximum.
+
+(** the joined table, row by row: reversed downward sweep then upward sweep, fields and
+    potentials staying attached to their temperatures *)
+Theorem joined_entries :
+  forall (Fld : Type) (dT uT : list R) (dF uF : list Fld) (dP uP : list (option R)),
+  length dT = length dF -> length dF = length dP ->
+  combine (join_T dT uT) (combine (join_F dF uF) (join_P dP uP)) =
+  rev (combine dT (combine dF dP)) ++ combine uT (combine uF uP).
+Proof. intros Fld. exact (@joined_entries_lemma Fld). Qed.
+Print Assumptions joined_entries.
